@@ -30,7 +30,52 @@ func init() {
 	replayers["c08.doc"] = func(c *Ctx, m map[string]any) map[string]any {
 		text, _ := m["text"].(string)
 		g, _ := m["g"].(bool)
+		if prev, ok := m["prev"].(string); ok {
+			of, _ := m["oldfirst"].(bool)
+			return c08DocAfter(c, prev, text, g, of)
+		}
 		return c08Doc(c, text, g)
+	}
+	server.VerifStartHook = c08StartHook
+}
+
+// ---------------------------------------------------------------- held diagnostics tasks
+
+type c08HoldKey struct{}
+
+// c08Hold: the diagnostics tasks of one server, stopped at their start (server.VerifStartHook)
+// until released, in the order they arrived.
+type c08Hold struct {
+	arrive chan chan struct{} // a task hands over its gate
+	done   chan struct{}      // one token per finished task
+}
+
+func c08StartHook(ctx context.Context, _ protocol.DocumentURI, _ uint64) func() {
+	h, _ := ctx.Value(c08HoldKey{}).(*c08Hold)
+	if h == nil {
+		return nil
+	}
+	gate := make(chan struct{})
+	h.arrive <- gate
+	<-gate
+	return func() { h.done <- struct{}{} }
+}
+
+func (h *c08Hold) next() chan struct{} {
+	select {
+	case g := <-h.arrive:
+		return g
+	case <-time.After(10 * time.Second):
+		panic("c08: a diagnostics task did not start within 10 s")
+	}
+}
+
+func (h *c08Hold) run(g chan struct{}) {
+	close(g)
+	select {
+	case <-h.done:
+	case <-time.After(20 * time.Second):
+		panic("c08: a released diagnostics task did not finish within 20 s")
 	}
 }
 
@@ -115,10 +160,30 @@ func c08Fixes() map[string]bool {
 
 var c08Seq int
 
-func c08Doc(c *Ctx, text string, g bool) map[string]any {
+func c08Doc(c *Ctx, text string, g bool) map[string]any { return c08DocHist(c, "", false, text, g) }
+
+// c08DocAfter: the same document, but the server reaches it through a history: it was opened
+// with `prev`, changed to `text`, and the diagnostics task of `prev` ran AFTER the task of
+// `text`, or before it but after the change (both held at their start until the change is in).  The superseded run must leave no
+// trace: every range is still judged against `text`.  (Seed r5-C08 let the late run install the
+// column mapper of the old text.)
+func c08DocAfter(c *Ctx, prev, text string, g bool, oldFirst bool) map[string]any {
+	c08OldFirst = oldFirst
+	out := c08DocHist(c, prev, true, text, g)
+	out["prev"] = prev
+	out["oldfirst"] = oldFirst
+	return out
+}
+
+// c08OldFirst: both tasks are held until the change has been processed; then either the task of
+// the current text runs first and the superseded one last, or the superseded one first (it finds
+// the per-document caches just emptied by the change) and the current one last.
+var c08OldFirst bool
+
+func c08DocHist(c *Ctx, prev string, hist bool, text string, g bool) map[string]any {
 	ctx := context.Background()
 	srv := server.NewServer()
-	cl := &c08Client{ch: make(chan *protocol.PublishDiagnosticsParams, 4)}
+	cl := &c08Client{ch: make(chan *protocol.PublishDiagnosticsParams, 8)}
 	srv.SetClient(cl)
 	c08Seq++
 	dir := c.Tmp
@@ -129,13 +194,45 @@ func c08Doc(c *Ctx, text string, g bool) map[string]any {
 	uri := protocol.DocumentURI("file://" + path)
 	td := protocol.TextDocumentIdentifier{URI: uri}
 
-	_ = srv.DidOpen(ctx, &protocol.DidOpenTextDocumentParams{
-		TextDocument: protocol.TextDocumentItem{URI: uri, Text: text, Version: 1}})
 	var pub *protocol.PublishDiagnosticsParams
-	select {
-	case pub = <-cl.ch:
-	case <-time.After(10 * time.Second):
-		panic("c08: no PublishDiagnostics within 10 s")
+	if hist {
+		hold := &c08Hold{arrive: make(chan chan struct{}, 4), done: make(chan struct{}, 4)}
+		hctx := context.WithValue(ctx, c08HoldKey{}, hold)
+		_ = srv.DidOpen(hctx, &protocol.DidOpenTextDocumentParams{
+			TextDocument: protocol.TextDocumentItem{URI: uri, Text: prev, Version: 1}})
+		old := hold.next()
+		_ = srv.DidChange(hctx, &protocol.DidChangeTextDocumentParams{
+			TextDocument:   protocol.VersionedTextDocumentIdentifier{TextDocumentIdentifier: td, Version: 2},
+			ContentChanges: []protocol.TextDocumentContentChangeEvent{{Text: text}}})
+		cur := hold.next()
+		if c08OldFirst {
+			hold.run(old)
+			hold.run(cur)
+		} else {
+			hold.run(cur)
+			hold.run(old)
+		}
+		// what the client shows is the last thing published
+	drain:
+		for {
+			select {
+			case p := <-cl.ch:
+				pub = p
+			default:
+				break drain
+			}
+		}
+		if pub == nil {
+			panic("c08: no PublishDiagnostics after both tasks ran")
+		}
+	} else {
+		_ = srv.DidOpen(ctx, &protocol.DidOpenTextDocumentParams{
+			TextDocument: protocol.TextDocumentItem{URI: uri, Text: text, Version: 1}})
+		select {
+		case pub = <-cl.ch:
+		case <-time.After(10 * time.Second):
+			panic("c08: no PublishDiagnostics within 10 s")
+		}
 	}
 
 	// inputs of the diagnostic range construction, taken from the real parser/analyzer/loader
@@ -702,6 +799,13 @@ func genC08(c *Ctx) {
 		c.Count("docs.nonbmp-dense")
 		c.Emit("c08.doc", c08Doc(c, genJournalC08nb(r, c.N(4, 8), true), true))
 	}
+	// the same kinds of document reached through a history whose superseded diagnostics run
+	// finishes last; the older text differs in line lengths and in characters outside the BMP
+	for i := 0; i < c.N(60, 600); i++ {
+		text := genJournalC08nb(r, c.N(4, 8), i%2 == 0)
+		c.Count("docs.after-stale-run")
+		c.Emit("c08.doc", c08DocAfter(c, c08Older(r, text), text, true, i%4 < 2))
+	}
 	// small CRLF journals, and free text (totality and correspondence only)
 	for i := 0; i < c.N(20, 150); i++ {
 		text := strings.ReplaceAll(genJournalC08(r, 3), "\n", "\r\n")
@@ -712,6 +816,33 @@ func genC08(c *Ctx) {
 		c.Count("docs.freetext")
 		c.Emit("c08.doc", c08Doc(c, genDoc(r, 5, 14), false))
 	}
+}
+
+// c08Older: an earlier version of the text — some lines shorter, some with characters outside
+// the BMP added or removed, some lines missing at the end.
+func c08Older(r *rand.Rand, text string) string {
+	lines := strings.Split(text, "\n")
+	if len(lines) > 3 && r.IntN(3) == 0 {
+		lines = lines[:len(lines)-1-r.IntN(2)]
+	}
+	for i, l := range lines {
+		rs := []rune(l)
+		switch r.IntN(4) {
+		case 0:
+			if len(rs) > 2 {
+				lines[i] = string(rs[:len(rs)/2])
+			}
+		case 1:
+			k := 0
+			if len(rs) > 0 {
+				k = r.IntN(len(rs))
+			}
+			lines[i] = string(rs[:k]) + "😀𝄞" + string(rs[k:])
+		case 2:
+			lines[i] = strings.ReplaceAll(strings.ReplaceAll(l, "😀", "e"), "𝄞", "g")
+		}
+	}
+	return strings.Join(lines, "\n")
 }
 
 var c08Fixed = []string{
